@@ -1,7 +1,7 @@
 (* The request/response interface the extracted driver serves. *)
 From Coq Require Import ZArith NArith List Bool.
 From Coq Require Import Strings.Byte.
-Require Import Bytes Value Expr Codec Float Stream Syntax Sizeof Parse Build Hex Containers Lazy.
+Require Import Bytes Value Expr Codec Float Stream Syntax Sizeof Parse Build Hex Containers Lazy Compiled.
 Import ListNotations.
 
 Inductive request :=
@@ -12,7 +12,9 @@ Inductive request :=
 | RHexdump (data : bytes) (linesize : N)
 | RHexundump (text : bytes) (linesize : N)
 | RCops (ops : list cop)
-| RLazy (c : con) (kw : list (name * val)) (data : bytes) (start : N) (h : list nat).
+| RLazy (c : con) (kw : list (name * val)) (data : bytes) (start : N) (h : list nat)
+| RCParse (c : con) (kw : list (name * val)) (data : bytes) (start : N)
+| RCBuild (c : con) (obj : val) (kw : list (name * val)).
 
 Inductive response :=
 | ROkParse (v : val) (pos : Z)
@@ -54,6 +56,16 @@ Definition run (r : request) : response :=
   | RLazy c kw data start h =>
       match lazy_run c kw data start h with
       | Ok (pos, outs) => ROkLazy pos outs
+      | Err e p => RErr e p
+      end
+  | RCParse c kw data start =>
+      match cparse_at c kw data start with
+      | Ok (v, pos) => ROkParse v pos
+      | Err e p => RErr e p
+      end
+  | RCBuild c obj kw =>
+      match cbuild_bytes c obj kw with
+      | Ok (r, out) => ROkBuild r out
       | Err e p => RErr e p
       end
   end.
